@@ -174,7 +174,9 @@ def gen_case(seed, tier='quick'):
     elif cls == 'longcycle':
         n = rng.randint(17, 200)
     elif cls == 'fail':
-        n = rng.randint(1, 26)
+        # (long chains: the cost of *reporting* a failure must stay
+        # polynomial in the distance it travels)
+        n = rng.randint(1, 26) if rng.random() < 0.6 else rng.randint(18, 45)
     else:
         n = rng.randint(1 if cls == 'selfloop' else 2, 16)
     W = 1 if (plain or cls == 'fail' and n > 12) else rng.choice(
@@ -196,6 +198,9 @@ def gen_case(seed, tier='quick'):
     if cls == 'longcycle':
         # only single-target constructs: the shortest cycle really is Lc
         weights = [78, 10, 0, 12, 0, 0]
+    if W > 4 and not plain:
+        # wide sheets: more ranges (columns A..Z next to AA, AB ...)
+        weights = [30, 10, 40, 10, 5, 5]
     if cls == 'deep_chain':
         # one precedent per cell and mentioned once: the evaluator walks
         # every path again, anything wider costs exponential time
